@@ -49,8 +49,32 @@ D = {
  "C19-m2": ("C19", "pilota/src/prost/encoding.rs map! merge_with_default", "key and value in ManuallyDrop until inserted; '?' returns before", "a corruption inside a map entry after the key or value owns heap data (long string key, message value)"),
  "C20-m1": ("C20", "pilota-build/src/middle/context.rs lit_into_ty", "struct-literal keys matched against the Rust field name", "a struct-literal default with a camelCase key"),
  "C20-m2": ("C20", "pilota-build/src/middle/context.rs list_stream", ".unique() on list literal elements", "a list default containing the same element twice"),
- "C17-m1": ("C17", "", "", ""),
- "C17-m2": ("C17", "", "", ""),
+ "C17-m1": ("C17", "pilota-build/src/codegen/mod.rs write_items", "sibling modules sorted by the first path segment only (the rest keeps HashMap order)", "two or more namespaces that share their first segment (demo.alpha, demo.beta); differs per process hash seed"),
+ "C17-m2": ("C17", "pilota-build/src/codegen/mod.rs write_split_mod", "split files rendered in parallel; collision suffixes (_2) handed out in arrival order", "split mode, one module with >= 32 items, names equal ignoring case in different pieces of the parallel slice, >= 2 workers"),
+ "C01-m3": ("C01", "pilota/src/thrift/binary.rs read_list/set/map_begin", "container count bounded by remaining / min element width, with Struct counted as 4 bytes", "checked binary reader, a container of empty structs near the end of the buffer (only the last of several values fails)"),
+ "C01-m4": ("C01", "pilota/src/thrift/compact.rs write_len", "one-byte fast path for length prefixes uses <= 0x80", "compact, a string/binary of exactly 128 bytes"),
+ "C03-m3": ("C03", "pilota/src/thrift/compact.rs TryFrom<TCompactType> for TType", "element type nibble 2 (BOOL per spec) rejected in list/set/map headers", "peer-written compact list<bool>/set<bool>/map with bool announced as 2; pilota writes 1"),
+ "C03-m4": ("C03", "pilota/src/thrift/error/application.rs", "TApplicationException decoding stops after the type field", "exception with type before message or an extra field, or a second message read from the same buffer"),
+ "C04-m3": ("C04", "pilota/src/thrift/compact.rs map_begin_len", "map count sized as zig-zag i32", "compact, a map with 64..=127 (8192..=16383) entries"),
+ "C04-m4": ("C04", "pilota-build/src/codegen/thrift/mod.rs codegen_encode_fields_size", "size() sums the fields in id order while encode writes them in declaration order", "compact, a struct whose fields are declared out of id order"),
+ "C07-m3": ("C07", "pilota/src/thrift/compact.rs skip_till_depth struct arm", "bool fields of a skipped struct are 'continue'd, leaving the pending bool value set", "sync compact, skipped struct with a bool field followed by a bare bool element (list<bool>, map with bool) before any other bool field"),
+ "C07-m4": ("C07", "pilota/src/thrift/mod.rs + binary.rs async skip_binary", "allocation-free drain subtracts the requested chunk size, not the bytes read", "async binary skip of a non-empty string under a delivery that satisfies a read only partially"),
+ "C09-m3": ("C09", "pilota/src/thrift/varint_ext.rs VarIntProcessor::push", "length checked after the byte is stored", "compact, >= 10 continuation bytes and one more at an i64 position"),
+ "C09-m4": ("C09", "pilota/src/thrift/rw_ext.rs read_exact_to_vec", "chunked path for lengths > 64 KiB ignores read_buf's 0 at end of input: endless loop", "async, declared string/binary length above 65536 with the stream ending early"),
+ "C12-m3": ("C12", "pilota/src/thrift/compact.rs TAsyncCompactProtocol", "pending bool cleared in read_field_end instead of read_bool", "async compact, unknown struct with a bool field followed by a non-empty bool container"),
+ "C02-m3": ("C02", "pilota-build/src/codegen/thrift/ty.rs ttype", "Arc-wrapped members always get wire type Struct in decode guards and container headers", "a member annotated pilota.rust_wrapper_arc whose type is not a struct (enum, typedef of a scalar, string with rust_type=string, binary with rust_type=vec)"),
+ "C02-m4": ("C02", "pilota-build/src/middle/context.rs lit_into_ty", "i64 default literals rendered through 'as i32'", "an optional i64 field with a default outside the 32-bit range, encoded absent"),
+ "C05-m3": ("C05", "pilota/src/prost/encoding.rs key_len", "'optimised' comparison chain is off by one at the 4 -> 5 byte key boundary", "a field with tag exactly 2^25"),
+ "C05-m4": ("C05", "pilota/src/prost/encoding.rs DecodeContext::default", "recursion budget starts at 99", "a value nested to exactly the documented limit of 100 (messages, groups, map levels count double)"),
+ "C06-m3": ("C06", "pilota/src/prost/encoding.rs fixed_width! merge_repeated", "a packed run overwrites elements decoded from earlier records (resize + iter_mut)", "a repeated fixed-width field split over two or more records with a packed record that is not the first"),
+ "C06-m4": ("C06", "pilota/src/prost/encoding.rs map! encode_with_default", "a map entry whose key and value are both default is not written (encoded_len agrees)", "a map containing the entry default-key -> default-value, feature off"),
+ "C08-m3": ("C08", "pilota/src/thrift/compact.rs skip_till_depth struct arm", "bool fields of a skipped struct are not passed to the skipper, the pending bool value stays set", "sync compact, unknown struct (or container of structs) with a bool field, then a known list/set/map of bool before any other bool field"),
+ "C08-m4": ("C08", "pilota/src/thrift/binary_unsafe.rs SkipData.len", "container element counter narrowed to u16", "unchecked reader skipping an unknown list/set of >= 65536 variable-width elements (map: 32768 entries), known fields after it"),
+ "C10-m3": ("C10", "pilota/src/prost/encoding.rs map! merge_with_default", "limit_reached() check dropped before enter_recursion()", "a map entry reached with a remaining recursion budget of exactly 0 (e.g. 51 nested map levels, or 100 messages + 1 map)"),
+ "C10-m4": ("C10", "pilota/src/prost/encoding.rs fixed_width! merge_repeated", "packed elements read with get_*_le without a per-element bounds check", "a packed run whose length is not a multiple of the element width, ending within width-1 bytes of the input end"),
+ "C11-m3": ("C11", "pilota/src/thrift/binary_unsafe.rs skip_till_depth map slow path", "keys of fixed size skipped through a 'lead' added on every stack re-selection", "unknown map with a fixed-size key and struct values that contain a variable-size field"),
+ "C11-m4": ("C11", "pilota/src/thrift/binary_unsafe.rs read_message_begin", "names > 24 bytes take a zero-copy path that does not re-derive buf from trans", "a message envelope with a method name longer than 24 bytes read by the unchecked reader"),
+ "C12-m4": ("C12", "pilota/src/thrift/mod.rs async skip_till_depth list arm", "list levels skipped with depth instead of depth - 1", "async skip of an unknown value nested deeper than 64 through lists: sync refuses, async accepts"),
 }
 
 def runs(name):
